@@ -250,15 +250,19 @@ def make_func(rng, name, shape=None, force=None):
             epilog(r0, 0, rng.choice(["ret", "ret", "jmp"]))
     return f
 
-def make_program(rng, nfuncs=8):
-    funcs = [make_func(rng, "f%d" % i) for i in range(nfuncs)]
-    shapes = [f.shape for f in funcs]
-    for need in ("msvc", "fp", "chained", "leaf"):
-        if need not in shapes:
-            funcs.append(make_func(rng, "f%d" % len(funcs), need))
-    # the largest allocation the 16-bit form of UWOP_ALLOC_LARGE can state, with nothing pushed before it: with the
-    # return address the frame is exactly 65536 words
-    funcs.append(make_func(rng, "f%d" % len(funcs), "large", force=dict(npush=0, alloc=rng.choice([0x7fff8, 0x7fff8, 0x7fff0]))))
+def make_program(rng, nfuncs=8, only=None):
+    """only = [(shape, force)]: exactly these functions (for checks that need every step to be of one kind)"""
+    if only is not None:
+        funcs = [make_func(rng, "f%d" % i, sh, force=fo) for i, (sh, fo) in enumerate(only)]
+    else:
+        funcs = [make_func(rng, "f%d" % i) for i in range(nfuncs)]
+        shapes = [f.shape for f in funcs]
+        for need in ("msvc", "fp", "chained", "leaf"):
+            if need not in shapes:
+                funcs.append(make_func(rng, "f%d" % len(funcs), need))
+        # the largest allocation the 16-bit form of UWOP_ALLOC_LARGE can state, with nothing pushed before it: with the
+        # return address the frame is exactly 65536 words
+        funcs.append(make_func(rng, "f%d" % len(funcs), "large", force=dict(npush=0, alloc=rng.choice([0x7fff8, 0x7fff8, 0x7fff0]))))
     # layout: regions in shuffled order, separated by int3 padding
     regs = [(f, k) for f in funcs for k in range(len(f.regions))]
     rng.shuffle(regs)
